@@ -346,7 +346,7 @@ func genConfigGrid(g *gen) {
 }
 
 func (g *gen) regCfg() T {
-	k := pick(g, "v4.1", "v4.2", "v4.3", "v6.1", "v6.2")
+	k := pick(g, "v4.1", "v4.2", "v4.3", "v6.1", "v6.2", "m4.1", "m4.2")
 	if g.r.Intn(12) == 0 {
 		k = "inv"
 	}
@@ -368,7 +368,8 @@ func (g *gen) regCfg() T {
 }
 
 func genRegistrySeqs(g *gen) {
-	keys := []string{"v4.1", "v4.2", "v4.3", "v6.1", "v6.2", "inv"}
+	// (m4.<n>: the IPv4-mapped IPv6 form of v4.<n> — another address, hence another key)
+	keys := []string{"v4.1", "v4.2", "v4.3", "v6.1", "v6.2", "m4.1", "m4.2", "inv"}
 	mk := func(withServe bool) T {
 		n := 1 + g.r.Intn(12)
 		var ops []T
@@ -424,7 +425,7 @@ func genRegistrySeqs(g *gen) {
 // concurrent histories: 2–4 goroutines × 1–5 operations over a small key space (so that they
 // collide), on a server that is serving (peers are started / stopped by the calls) or not
 func genRegistryConcurrent(g *gen) {
-	keys := []string{"v4.1", "v4.2", "v6.1"}
+	keys := []string{"v4.1", "v4.2", "v6.1", "m4.1"}
 	cfgFor := func(k string) T {
 		return term.App("cfg", term.A(k), term.A("inv"), term.N(uint64(1+g.r.Intn(2))), term.N(uint64(1+g.r.Intn(2))),
 			term.I(pick(g, 90, 90, 0, 1)), term.I(179), term.B(true))
@@ -516,6 +517,8 @@ func genBackoff(g *gen) {
 
 func init() {
 	generators["C20"] = []func(*gen){genConfigGrid, genRegistrySeqs, genRegistryConcurrent}
+	// one peer manager per configured peer (C01) rests on the registry refusing a second AddPeer of a present key
+	generators["C01"] = []func(*gen){genRegistrySeqs}
 	// C14: the router id the OPENs carry — NewServer takes IPv4 router ids only (an IPv4-mapped IPv6 address is not one)
 	generators["C14"] = append(generators["C14"], func(g *gen) {
 		for _, rid := range []string{"v4.9", "v6.9", "m4.9", "m4.1", "inv"} {
